@@ -141,6 +141,10 @@ func machines(w *World) []*machine {
 		}
 	}
 	sort.Slice(machinesMemo, func(i, j int) bool { return machinesMemo[i].name < machinesMemo[j].name })
+	for _, m := range machinesMemo {
+		w.MarkBoundary("state function of machine "+m.name, m.states...)
+		w.MarkBoundary("consuming primitive of machine "+m.name, m.next, m.run)
+	}
 	return machinesMemo
 }
 
